@@ -203,6 +203,21 @@ func Table() map[string]*Property {
 		Note:    "generator-level no-panic and error-propagation obligations plus the text-level obligations of the emitted code; the open findings shared with C01 (emitted code that does not parse or type-check although goderive exits 0) are listed as known findings",
 	})
 	add(&Property{
+		ID:     "C05",
+		Groups: []Group{{Layer: "O", Funcs: []string{"deepcopy.gen.genField", "deepcopy.gen.genFunc", "clone.gen.genFuncFor"}, Only: semantic}},
+		Assumptions: append([]string{
+			"'equal copy with nil-ness reproduced': the destination after the call is EqC/EqTop-equal to the source (SMT obligations): genField and genStatement print statements that assign their lvalue operand; a call of such a generator is rendered '<operand> = ĦS(...)' and the generator itself is checked on a wrapper returning the operand's final value; slices and maps filled in place are described by final(dst)",
+			"'source unchanged': heap frame (the emitted function writes *dst / its lvalue operand and freshly allocated cells only) plus the ownership obligation for slices and maps",
+			"'no sharing': the ownership obligation o-no-sharing (syntactic, flow-insensitive, conservative; NOT an SMT obligation): every reference stored into the destination is nil, freshly allocated (new, make, literal), a re-slicing of what the destination held itself, or produced by a generator function that is under the same obligation; plain assignment only where the generator established canCopy (no references inside)",
+			"hypothesis of the property: destination and source share no memory (pointer arguments are different non-nil cells; operands passed by address are different cells); prior destination contents are arbitrary",
+			"NOT proved (text level only: parse, type-check, ownership): unexported fields of imported structs (written through reflect/unsafe), maps whose key type is not plainly copyable (keys are freshly copied: structural equality of maps is keyed by identity), user DeepCopy methods (trusted to copy), arrays behind a pointer lvalue filled in a loop",
+			"fresh allocations are distinct from every pointer in the state and in the heap; EqSpec of opaque components is heap-less (sound while only the destination and fresh cells are written)",
+			"struct field counts enumerated up to 3; termination by the acyclic-values hypothesis",
+		}, oAssume...),
+		Trusted: oTrusted,
+		Note:    "deepcopy.genField (every lvalue class and type kind), deepcopy.genFunc with genStatement inlined (pointer to struct field by field, slices, arrays, maps), clone.genFuncFor (allocates, delegates, returns)",
+	})
+	add(&Property{
 		ID:     "C18",
 		Groups: []Group{{Layer: "O", Funcs: []string{"mem.gen.genFunc"}, Only: semantic}},
 		Assumptions: append([]string{
